@@ -430,8 +430,13 @@ def _changed(before, after):
     return [ARN2SYM.get(k[1], "?") for k in keys]
 
 
+_RUNDIR = [None]      # where the fresh worlds keep their state-machine store file (run/C10-<tier>/)
+
+
 def replay_path(cids, front, W):
     """Drive one path through a fresh world.  Returns (steps, truncated_at or None)."""
+    if _RUNDIR[0]:
+        W.RUN = _RUNDIR[0]
     w = W.World(1, tag="c10")
     w.rec.enabled = False
     steps = []
@@ -636,6 +641,8 @@ def run_replay(v, path):
     rp = json.load(open(path))
     calls = rp["calls"]
     install_calls(calls)
+    _RUNDIR[0] = os.path.join(RUN, "C10-replay")
+    os.makedirs(_RUNDIR[0], exist_ok=True)
     from vsim import world as W
     _share_statelint()
     steps, trunc = replay_path(list(range(len(calls))), rp.get("front", "asyncio"), W)
@@ -685,6 +692,7 @@ def run(tier_name=None, replay=None):
     timing["model_s"] = round(time.time() - t0, 1)
     calls = g.calls
     install_calls(calls)
+    _RUNDIR[0] = work
     # (ii) targets and cover, (iii) replay -- in rounds: a call after which the real store is known
     # to have left the model (an error answer that changed a record) may only END a path
     t0 = time.time()
